@@ -14,7 +14,8 @@ Require Import SDS.Model.Mach SDS.Model.Raw SDS.Model.IntVec SDS.Model.BitVec SD
 Require Import SDS.Model.Sparse SDS.Model.RL SDS.Model.WM.
 Require Import SDS.Spec.BitSeq SDS.Spec.Utf8 SDS.Spec.Runs.
 Require Import SDS.Proofs.RawProof SDS.Proofs.IntVecProof.
-Require SDS.Spec.Format SDS.Proofs.FormatProof SDS.Proofs.FormatRL SDS.Proofs.FormatWM SDS.Proofs.FormatConform.
+Require SDS.Spec.Format SDS.Proofs.FormatProof SDS.Proofs.FormatRL SDS.Proofs.FormatWM SDS.Proofs.FormatConform
+        SDS.Proofs.FormatRLModel.
 Import ListNotations.
 Open Scope N_scope.
 Module F := SDS.Spec.Format.
@@ -181,15 +182,28 @@ Theorem C07_writes_conform_bv : forall m b,
 Proof. exact FormatConform.conform_bv. Qed.
 Print Assumptions C07_writes_conform_bv.
 
+(* RLVector (the model of C03): for every list R of runs of set bits (sorted, non-overlapping, adjacency allowed,
+   fewer than 2^55 of them), every length L with end(R) <= L <= 2^64-1, both modes, the vector that RLBuilder +
+   RLVector::from construct serializes to bytes that are the little-endian elements of [rl_serialize v], and that
+   element list is a valid run-length document (every MUST of the section: code units, whole maximal runs per
+   64-unit block, GREEDY filling - a block is closed only when the next run does not fit -, zero padding and none
+   in the final block, one sample (ones, bits) per block with the documented meaning, minimal sample width, data
+   width 4) whose content is (L, the maximal runs of R). *)
+Theorem C07_writes_conform_rl : forall (m : mode) (R : list (N * N)) (L : N),
+  runs_sorted 0 R -> runs_end R <= L -> L <= 2 ^ 64 - 1 -> lenN R < 2 ^ 55 ->
+  exists v,
+    rl_build m (map (fun r => BTrySet (fst r) (snd r)) R ++ [BSetLen L]) = Ok (v, map (fun _ => true) R ++ [true]) /\
+    F.elems_of_bytes (c_enc (rl_codec m) v) = Some (rl_serialize v) /\
+    F.doc_valid_rl (rl_serialize v) = true /\ F.doc_content_rl (rl_serialize v) = Some (L, maximal R).
+Proof. exact FormatRLModel.rl_conform_bytes. Qed.
+Print Assumptions C07_writes_conform_rl.
+
 (* composite types, over the (early) models of their constructors: stated, not proved in this round *)
 Definition C07_writes_conform_sparse_statement : Prop := forall sp m w n ps sv,
   1 <= w <= 63 -> n < 2 ^ 63 -> F.sorted_lt ps = true -> Forall (fun x => x < n) ps ->
   sv_build_set sp m w n ps = Ok (inl sv) ->
   F.doc_valid_sparse (sv_serialize sv) = true /\ F.doc_content_sparse (sv_serialize sv) = Some (n, ps).
-Definition C07_writes_conform_rl_statement : Prop := forall m len runs v oks,
-  runs_maximal true 0 runs -> runs_end runs <= len -> len < 2 ^ 63 ->
-  rl_build m (map (fun r => BTrySet (fst r) (snd r)) runs ++ [BSetLen len]) = Ok (v, oks) ->
-  F.doc_valid_rl (rl_serialize v) = true /\ F.doc_content_rl (rl_serialize v) = Some (len, runs).
+(* RLVector: proved, see C07_writes_conform_rl above *)
 Definition C07_writes_conform_wmcore_statement : Prop := forall sp m V c,
   Forall (fun x => x < 2 ^ 64) V -> wm_core_from sp m V = Ok c ->
   F.doc_valid_wmcore (wc_serialize c) = true /\ F.doc_content_wmcore (wc_serialize c) = Some (wc_width c, V).
